@@ -99,8 +99,15 @@ def r2_boosted(ctx):
     f = prog.find_func("BoostedRandomDictator._run_step")
     pm = astx.parents(f.node)
     prof = f.params[1]
-    rc = astx.unique_def(f.node, "remaining_cands")
-    ctx.check(rc is not None and astx.u(rc) == f"{prof}.candidates", f, rc or f.node, "c = number of candidates of the current profile", "", "remaining candidates are not profile.candidates")
+    # roles, found by what the locals hold: RC = the current profile's candidates, CV = the previous state's tallies,
+    # W = the candidate that is removed from the profile
+    singles = astx.single_assignments(f.node, text=False)
+    RC = next((k for k, v in singles.items() if isinstance(v, ast.AST) and astx.u(v) == f"{prof}.candidates" and k.isidentifier()), None)
+    CV = next((k for k, v in singles.items() if isinstance(v, ast.AST) and astx.u(v) == f"{f.params[2]}.scores" and k.isidentifier()), None)
+    rcs0 = astx.calls_in(f.node, "remove_cand")
+    W = astx.u(rcs0[0].args[0]) if len(rcs0) == 1 and rcs0[0].args and isinstance(rcs0[0].args[0], ast.Name) else None
+    rc = astx.unique_def(f.node, RC) if RC else None
+    ctx.check(rc is not None, f, rc or f.node, "c = number of candidates of the current profile", "", "no local holds profile.candidates: the candidate count of the mixing test is taken from something else")
     # the mixing draw, found by what it is (the one random.uniform call of the step), whether or not it is held in a local
     uni = [c for c in astx.calls_in(f.node) if prog.resolve_expr(f.module, c.func) == "random.uniform"]
     u = uni[0] if len(uni) == 1 else None
@@ -115,7 +122,7 @@ def r2_boosted(ctx):
         return
     d = draws[0]
     def _rn(e):
-        if astx.u(e) in ("len(remaining_cands)", f"len({prof}.candidates)"):
+        if astx.u(e) in (f"len({RC})", f"len({prof}.candidates)"):
             return "NC"
         if e is u or (UVAR and astx.is_name(e, UVAR)):
             return "u"
@@ -125,16 +132,16 @@ def r2_boosted(ctx):
     want = literals(Normalizer(None, inline=False).conj([(ast.parse("NC == 1", mode="eval").body, False), (ast.parse("u <= 1 / (NC - 1)", mode="eval").body, True)]))
     ctx.check(lits == want, f, d.call, "squares branch iff c > 1 and u <= 1/(c-1)", str(sorted(lits)), f"squares branch is taken under {sorted(lits)}; documented {sorted(want)}")
     ok, why = align.aligned(align.sigs(f, d.pop, d.call), align.sigs(f, d.probs, d.call))
-    cv = astx.unique_def(f.node, "candidate_votes")
+    cv = astx.unique_def(f.node, CV) if CV else None
     okcv = cv is not None and astx.u(cv) == f"{f.params[2]}.scores"
     ctx.check(ok and okcv, f, d.call, "squares draw: candidates and probabilities are keys/values of the current tallies", why[:150],
               f"aligned={ok} ({why[:100]}); tallies are prev_state.scores={okcv}")
     # p pipeline: values -> / total -> ^2 -> / sum
     steps = [astx.u(st) for st, dv in astx.defs_of(f.node, astx.u(d.probs))]
-    want_steps = ["p = np.array(list(candidate_votes.values())).astype('float64')", f"p /= float({prof}.total_ballot_wt)", "p = np.power(p, 2)", "p /= np.sum(p)"]
+    want_steps = [f"p = np.array(list({CV}.values())).astype('float64')", f"p /= float({prof}.total_ballot_wt)", "p = np.power(p, 2)", "p /= np.sum(p)"]
     ctx.check(steps == want_steps, f, d.call, "squares law: (tally / total)^2 renormalised by its sum", str(steps), f"probability pipeline is {steps}; documented {want_steps}")
     # single candidate
-    one = [st for st, dv in astx.defs_of(f.node, "winning_candidate") if dv is not None and astx.u(dv) == "remaining_cands[0]"]
+    one = [st for st, dv in astx.defs_of(f.node, W or "?") if dv is not None and astx.u(dv) == f"{RC}[0]"]
     good = len(one) == 1 and literals(N.conj(astx.path_condition(f.node, one[0], pm))) == {"eq(NC, 1)"}
     ctx.check(good, f, one[0] if one else f.node, "a single remaining candidate wins outright", "", "single-candidate branch changed")
     # dictator branch: the branch of the mixing test that holds the weighted ballot draw
@@ -155,11 +162,12 @@ def r2_boosted(ctx):
     want_d = literals(Normalizer(None, inline=False).conj([(ast.parse("NC == 1", mode="eval").body, False), (ast.parse("u <= 1 / (NC - 1)", mode="eval").body, False)]))
     ctx.check(lits_d == want_d, f, dd[0].call, "dictator branch iff c > 1 and u > 1/(c-1)", str(sorted(lits_d)), f"dictator branch is taken under {sorted(lits_d)}; documented {sorted(want_d)}")
     T = _dictator_branch(ctx, f, else_body, "BoostedRandomDictator")
-    wc = [st for st, dv in astx.defs_of(f.node, "winning_candidate") if dv is not None and T is not None and astx.u(dv) == f"list({T}[0])[0]"]
+    wc = [st for st, dv in astx.defs_of(f.node, W or "?") if dv is not None and T is not None and astx.u(dv) == f"list({T}[0])[0]"]
     rcs = astx.calls_in(f.node, "remove_cand")
-    good = len(wc) == 1 and len(rcs) == 1 and astx.u(rcs[0].args[0]) == "winning_candidate" and astx.u(rcs[0].args[1]) == prof
-    el = [dv for st, dv in astx.defs_of(f.node, "elected") if dv is not None]
-    good = good and len(el) == 1 and astx.u(el[0]) == "(frozenset({winning_candidate}),)"
+    good = len(wc) == 1 and len(rcs) == 1 and W is not None and astx.u(rcs[0].args[1]) == prof
+    el = [astx.u(kw_) for sc_ in elect.state_ctor_calls(prog, f) for k_, kw_ in elect.state_kwargs(prog, sc_).items() if k_ == "elected"]
+    el = [astx.u(astx.unique_def(f.node, x)) if x.isidentifier() and astx.unique_def(f.node, x) is not None else x for x in el]
+    good = good and len(el) == 1 and el[0] == f"(frozenset({{{W}}}),)"
     ctx.check(good, f, f.node, "BoostedRandomDictator: the chosen candidate is elected alone and removed from the profile", "", "winner recording / removal changed")
 
 
